@@ -19,6 +19,12 @@
   along with lbzip2.  If not, see <http://www.gnu.org/licenses/>.
 */
 
+/* Verification hook: a checking harness may include several .c files in one
+   translation unit; let it see this header only once (KJN_LBZIP2_VERIF only). */
+#if defined(KJN_LBZIP2_VERIF) && defined(VERIF_COMMON_H_SEEN)
+#else
+#define VERIF_COMMON_H_SEEN
+
 #include <assert.h>             /* assert() */
 #include <errno.h>              /* errno */
 #include <inttypes.h>           /* uint32_t */
@@ -150,3 +156,5 @@ void __gcov_flush(void);
 # undef VERIF_POINT
 # define VERIF_POINT(id, arg) ((void)0)
 #endif
+
+#endif /* VERIF_COMMON_H_SEEN */
